@@ -404,27 +404,24 @@ theorem numDigitsAux_eq : ∀ (k f x : Nat), (10 ^ k ≤ x ∨ k = 0) → x < 10
 theorem numDigits_eq (k x : Nat) (hlo : 10 ^ k ≤ x ∨ k = 0) (hhi : x < 10 ^ (k + 1)) (hk : k < 40) :
     numDigits x = k + 1 := numDigitsAux_eq k 40 x hlo hhi hk
 
-theorem tdiv_natden (n : Int) (d : Nat) :
-    Int.tdiv n d = if 0 ≤ n then n / (d : Int) else -((-n) / (d : Int)) := by
-  split
-  · exact Int.tdiv_eq_ediv_of_nonneg ‹_›
-  · have h : n = -(-n) := by omega
-    rw [h, Int.neg_tdiv, Int.tdiv_eq_ediv_of_nonneg (by omega)]
-    simp
+/-- The source floors (`div_euclid`) since commit 700d14d; breaks if the arms go back to `/`. -/
+theorem divUnit_eq (n : Int) (dv : Nat) : divUnit n dv = n / (dv : Int) := by
+  simp [divUnit, Snel.Gen.C16.unitDivFloors]
 
 /-- `normalize_integer_epoch` on a value whose digit count is known. -/
 theorem normalize_of_digits (n : Int) (k dv : Nat) (hlo : 10 ^ k ≤ n.natAbs ∨ k = 0)
     (hhi : n.natAbs < 10 ^ (k + 1)) (hk : k < 40)
     (hl : lookupUnit (k + 1) Snel.Gen.C16.unitTable = some dv) :
     normalizeIntegerEpoch n =
-      if i64Min ≤ Int.tdiv n dv ∧ Int.tdiv n dv ≤ i64Max then some (Int.tdiv n dv) else none := by
+      if i64Min ≤ n / (dv : Int) ∧ n / (dv : Int) ≤ i64Max then some (n / (dv : Int)) else none := by
   unfold normalizeIntegerEpoch
   rw [numDigits_eq k _ hlo hhi hk, hl]
+  simp only [divUnit_eq]
 
 theorem normalize_band (n t : Int) (k dv : Nat) (hlo : 10 ^ k ≤ n.natAbs ∨ k = 0)
     (hhi : n.natAbs < 10 ^ (k + 1)) (hk : k < 40)
     (hl : lookupUnit (k + 1) Snel.Gen.C16.unitTable = some dv)
-    (hq : Int.tdiv n dv = t) (hfit : i64Min ≤ t ∧ t ≤ i64Max) :
+    (hq : n / (dv : Int) = t) (hfit : i64Min ≤ t ∧ t ≤ i64Max) :
     normalizeIntegerEpoch n = some t := by
   rw [normalize_of_digits n k dv hlo hhi hk hl, hq, if_pos hfit]
 
@@ -439,92 +436,85 @@ theorem units_band_pos (t : Int) (h1 : 10 ^ 8 ≤ t) (h2 : t < 10 ^ 10) :
   by_cases h : t < 10 ^ 9
   · refine ⟨?_, ?_, ?_, ?_⟩
     · exact normalize_band t t 8 1 (Or.inl (by omega)) (by omega) (by decide) (by decide)
-        (by rw [tdiv_natden]; simp) hfit
+        (by simp) hfit
     · intro r hr hr'
       exact normalize_band _ t 11 1000 (Or.inl (by omega)) (by omega) (by decide) (by decide)
-        (by rw [tdiv_natden]; simp; omega) hfit
+        (by omega) hfit
     · intro r hr hr'
       exact normalize_band _ t 14 1000000 (Or.inl (by omega)) (by omega) (by decide) (by decide)
-        (by rw [tdiv_natden]; simp; omega) hfit
+        (by omega) hfit
     · intro r hr hr'
       exact normalize_band _ t 17 1000000000 (Or.inl (by omega)) (by omega) (by decide) (by decide)
-        (by rw [tdiv_natden]; simp; omega) hfit
+        (by omega) hfit
   · refine ⟨?_, ?_, ?_, ?_⟩
     · exact normalize_band t t 9 1 (Or.inl (by omega)) (by omega) (by decide) (by decide)
-        (by rw [tdiv_natden]; simp) hfit
+        (by simp) hfit
     · intro r hr hr'
       exact normalize_band _ t 12 1000 (Or.inl (by omega)) (by omega) (by decide) (by decide)
-        (by rw [tdiv_natden]; simp; omega) hfit
+        (by omega) hfit
     · intro r hr hr'
       exact normalize_band _ t 15 1000000 (Or.inl (by omega)) (by omega) (by decide) (by decide)
-        (by rw [tdiv_natden]; simp; omega) hfit
+        (by omega) hfit
     · intro r hr hr'
       exact normalize_band _ t 18 1000000000 (Or.inl (by omega)) (by omega) (by decide) (by decide)
-        (by rw [tdiv_natden]; simp; omega) hfit
+        (by omega) hfit
 
-/-- Negative instants: `/` truncates toward zero, so a value with a sub-second remainder lands on
-the *next* second (`t + 1`), while exact multiples are read correctly. -/
+/-- Negative instants in the mirrored band: `div_euclid` floors, so a value with a sub-second
+remainder is read as the whole second of its instant, like RFC 3339 fractions and floats. -/
 theorem units_band_neg (t : Int) (h1 : -(10 ^ 10) < t) (h2 : t < -(10 ^ 8)) :
     normalizeIntegerEpoch t = some t ∧
-    (∀ r : Int, 0 ≤ r → r < 1000 →
-      normalizeIntegerEpoch (t * 1000 + r) = some (if r = 0 then t else t + 1)) ∧
-    (∀ r : Int, 0 ≤ r → r < 1000000 →
-      normalizeIntegerEpoch (t * 1000000 + r) = some (if r = 0 then t else t + 1)) ∧
-    (∀ r : Int, 0 ≤ r → r < 1000000000 →
-      normalizeIntegerEpoch (t * 1000000000 + r) = some (if r = 0 then t else t + 1)) := by
-  have hfit : ∀ x : Int, x = t ∨ x = t + 1 → i64Min ≤ x ∧ x ≤ i64Max := by
-    intro x hx; unfold i64Min i64Max; omega
+    (∀ r : Int, 0 ≤ r → r < 1000 → normalizeIntegerEpoch (t * 1000 + r) = some t) ∧
+    (∀ r : Int, 0 ≤ r → r < 1000000 → normalizeIntegerEpoch (t * 1000000 + r) = some t) ∧
+    (∀ r : Int, 0 ≤ r → r < 1000000000 → normalizeIntegerEpoch (t * 1000000000 + r) = some t) := by
+  have hfit : i64Min ≤ t ∧ t ≤ i64Max := by unfold i64Min i64Max; omega
   refine ⟨?_, ?_, ?_, ?_⟩
   · by_cases h : -(10 ^ 9) < t
     · exact normalize_band t t 8 1 (Or.inl (by omega)) (by omega) (by decide) (by decide)
-        (by rw [tdiv_natden]; simp) (hfit t (Or.inl rfl))
+        (by simp) hfit
     · exact normalize_band t t 9 1 (Or.inl (by omega)) (by omega) (by decide) (by decide)
-        (by rw [tdiv_natden]; simp) (hfit t (Or.inl rfl))
+        (by simp) hfit
   · intro r hr hr'
     by_cases hr0 : r = 0
     · subst hr0
-      simp only [if_true, Int.add_zero]
+      simp only [Int.add_zero]
       by_cases h : -(10 ^ 9) < t
       · exact normalize_band _ _ 11 1000 (Or.inl (by omega)) (by omega) (by decide) (by decide)
-          (by rw [tdiv_natden]; split <;> omega) (hfit t (Or.inl rfl))
+          (by omega) hfit
       · exact normalize_band _ _ 12 1000 (Or.inl (by omega)) (by omega) (by decide) (by decide)
-          (by rw [tdiv_natden]; split <;> omega) (hfit t (Or.inl rfl))
-    · simp only [hr0, if_false]
-      by_cases h : -(10 ^ 9) ≤ t
+          (by omega) hfit
+    · by_cases h : -(10 ^ 9) ≤ t
       · exact normalize_band _ _ 11 1000 (Or.inl (by omega)) (by omega) (by decide) (by decide)
-          (by rw [tdiv_natden]; split <;> omega) (hfit _ (Or.inr rfl))
+          (by omega) hfit
       · exact normalize_band _ _ 12 1000 (Or.inl (by omega)) (by omega) (by decide) (by decide)
-          (by rw [tdiv_natden]; split <;> omega) (hfit _ (Or.inr rfl))
+          (by omega) hfit
   · intro r hr hr'
     by_cases hr0 : r = 0
     · subst hr0
-      simp only [if_true, Int.add_zero]
+      simp only [Int.add_zero]
       by_cases h : -(10 ^ 9) < t
       · exact normalize_band _ _ 14 1000000 (Or.inl (by omega)) (by omega) (by decide) (by decide)
-          (by rw [tdiv_natden]; split <;> omega) (hfit t (Or.inl rfl))
+          (by omega) hfit
       · exact normalize_band _ _ 15 1000000 (Or.inl (by omega)) (by omega) (by decide) (by decide)
-          (by rw [tdiv_natden]; split <;> omega) (hfit t (Or.inl rfl))
-    · simp only [hr0, if_false]
-      by_cases h : -(10 ^ 9) ≤ t
+          (by omega) hfit
+    · by_cases h : -(10 ^ 9) ≤ t
       · exact normalize_band _ _ 14 1000000 (Or.inl (by omega)) (by omega) (by decide) (by decide)
-          (by rw [tdiv_natden]; split <;> omega) (hfit _ (Or.inr rfl))
+          (by omega) hfit
       · exact normalize_band _ _ 15 1000000 (Or.inl (by omega)) (by omega) (by decide) (by decide)
-          (by rw [tdiv_natden]; split <;> omega) (hfit _ (Or.inr rfl))
+          (by omega) hfit
   · intro r hr hr'
     by_cases hr0 : r = 0
     · subst hr0
-      simp only [if_true, Int.add_zero]
+      simp only [Int.add_zero]
       by_cases h : -(10 ^ 9) < t
       · exact normalize_band _ _ 17 1000000000 (Or.inl (by omega)) (by omega) (by decide) (by decide)
-          (by rw [tdiv_natden]; split <;> omega) (hfit t (Or.inl rfl))
+          (by omega) hfit
       · exact normalize_band _ _ 18 1000000000 (Or.inl (by omega)) (by omega) (by decide) (by decide)
-          (by rw [tdiv_natden]; split <;> omega) (hfit t (Or.inl rfl))
-    · simp only [hr0, if_false]
-      by_cases h : -(10 ^ 9) ≤ t
+          (by omega) hfit
+    · by_cases h : -(10 ^ 9) ≤ t
       · exact normalize_band _ _ 17 1000000000 (Or.inl (by omega)) (by omega) (by decide) (by decide)
-          (by rw [tdiv_natden]; split <;> omega) (hfit _ (Or.inr rfl))
+          (by omega) hfit
       · exact normalize_band _ _ 18 1000000000 (Or.inl (by omega)) (by omega) (by decide) (by decide)
-          (by rw [tdiv_natden]; split <;> omega) (hfit _ (Or.inr rfl))
+          (by omega) hfit
 
 /-! ## Sites -/
 
